@@ -159,8 +159,22 @@ def do_check(prop, pid, tier, seed, a, scratch, t0):
             continue
         violations.append(r)
     if retry:
-        # same VC as on the baseline: a solver flake, not a change in the code.
-        undecided += retry
+        # Same VC as on the baseline (function and contracts unchanged): a solver
+        # flake, not a change in the code.  Retry alone, with a long budget.
+        names = {r["name"] for r in retry}
+        fns = sorted({r["function"] for r in retry})
+        again = run_cone(fns, timeout_ms=120000, seed=seed + 1, shards={q: min(8, len(names)) for q in fns}, want_canary=False, only_names=names)
+        for q, m in again.items():
+            for r2 in m["results"]:
+                if r2["result"] == "unsat":
+                    r2["retried"] = True
+                    all_results[:] = [x for x in all_results if x["name"] != r2["name"]] + [r2]
+                elif r2["result"] == "sat":
+                    violations.append(r2)
+                else:
+                    undecided.append(r2)
+        discharged = [r for r in all_results if r["result"] == "unsat"]
+        failing = [r for r in all_results if r["result"] != "unsat"]
 
     # functions the engine could not process
     for q, why in unsupported.items():
